@@ -43,14 +43,18 @@ type valSpec struct {
 
 // cfgSpec is one fixture configuration: a look-back validator set and the protocol parameters in force.
 type cfgSpec struct {
-	Name    string
-	Vals    []valSpec
-	ProtoV  uint64   // ValidatorThreshold of the version in force
-	ProtoP  uint64   // ProposerThreshold of the version in force
-	Ths     []uint64 // threshold alphabet a forger may declare (contains ProtoV and ProtoP)
-	Voters  []int    // voters of the honest header (validator ids, 1-based)
-	Prop    int      // proposer of the honest header
-	Natural bool     // p < 1 under the protocol thresholds: the genesis seed is searched until the honest committee has a quorum
+	Name     string
+	Vals     []valSpec
+	ProtoV   uint64   // ValidatorThreshold of the version in force
+	ProtoP   uint64   // ProposerThreshold of the version in force
+	Ths      []uint64 // threshold alphabet a forger may declare (contains ProtoV and ProtoP)
+	Voters   []int    // voters of the honest header (validator ids, 1-based)
+	Prop     int      // proposer of the honest header
+	Natural  bool     // p < 1 under the protocol thresholds: the genesis seed is searched until the honest committee has a quorum
+	Tail     bool     // natural, and moreover one honest voter's VRF output lies in the top 1% of the range (upper-tail branch of choose)
+	SaltHint int      // start of the seed search
+	Pad      int      // filler validators (offline chamber, stake 50): the list is sorted by DESCENDING stake, so they take the list
+	// indices 0..Pad-1 and the modelled validators get indices >= Pad
 }
 
 const (
@@ -83,6 +87,11 @@ func configs() []cfgSpec {
 		{Name: "degenerate-C", Vals: c, ProtoV: 12, ProtoP: 12, Ths: []uint64{12, 2, 8, 20}, Voters: []int{1, 2}, Prop: 5},
 		// natural: p < 1 (a second "version": different thresholds for proposer and committee)
 		{Name: "natural-N", Vals: n, ProtoV: 20, ProtoP: 6, Ths: []uint64{20, 6, 2, 30}, Voters: []int{1, 2, 3}, Prop: 1, Natural: true},
+		// large set: 63 fillers in front, so the modelled validators sit at list indices 63 (house, stake 5), 64 (stake 4), 65/66 (stake 3,
+		// one online, one offline), 67 (stake 2): both sides of a 64-entry boundary of any index-keyed bookkeeping in the verifier
+		{Name: "large-L", Vals: a, ProtoV: 9, ProtoP: 9, Ths: []uint64{9, 1, 4, 12}, Voters: []int{1, 2}, Prop: 1, Pad: 63},
+		// natural with a voter in the upper tail of the sortition (VRF output above 0.99 of the range)
+		{Name: "natural-T", Vals: n, ProtoV: 20, ProtoP: 6, Ths: []uint64{20, 6, 2, 30}, Voters: []int{1, 2, 3}, Prop: 2, Natural: true, Tail: true, SaltHint: 2181},
 	}
 }
 
@@ -119,7 +128,7 @@ func (c *stubChain) GetBlockByNumber(uint64) *types.Block      { return nil }
 func (c *stubChain) GetVldReader(valRoot common.Hash) (state.ValidatorReader, error) {
 	return state.NewVldReader(valRoot, c.sdb, false)
 }
-func (c *stubChain) GetAcReader() rawdb.AcReader         { return nil }
+func (c *stubChain) GetAcReader() rawdb.AcReader       { return nil }
 func (c *stubChain) UpdateExistedHeader(*types.Header) {}
 
 type cred struct {
@@ -143,13 +152,14 @@ type world struct {
 	creds   map[[4]int]cred // (validator, seed id, step, index) -> VRF evaluation
 	sigs    map[string]bls.Signature
 	seat    [][][][][]int // [v][t][i][s][d], all 1-based with a dummy 0 entry
+	salt    int
 }
 
 var blsMgr = bls.NewBlsManager()
 
 func newWorld(id int, cfg cfgSpec) (*world, error) {
 	w := &world{id: id, cfg: cfg, nv: len(cfg.Vals), creds: map[[4]int]cred{}, sigs: map[string]bls.Signature{}}
-	w.keys = fixture.Keys("c01-"+cfg.Name, w.nv+1)
+	w.keys = fixture.Keys("c01-"+cfg.Name, w.nv+1+cfg.Pad) // 1..nv modelled, nv+1 stranger, then the fillers
 	w.vrfs = make([]vrf.PrivateKey, w.nv+2)
 	for i := 1; i <= w.nv+1; i++ {
 		sk, err := secp256k1VRF.NewVRFSigner(w.keys[i].Priv)
@@ -163,25 +173,72 @@ func newWorld(id int, cfg cfgSpec) (*world, error) {
 	if !yp.EnableBls {
 		return nil, fmt.Errorf("fixture expects a BLS-enabled protocol version")
 	}
-	for try := 0; ; try++ {
-		if try > 400 {
-			return nil, fmt.Errorf("no genesis seed gives the honest committee of %s a quorum", cfg.Name)
+	// the look-back seed is searched (credentials depend on keys and seed only) before the genesis state is built
+	w.total = big.NewInt(chamberOnline(cfg.Vals))
+	salt := cfg.SaltHint // where the search succeeded when the fixture was written (only a starting point: the conditions are re-checked)
+	for ; ; salt++ {
+		if salt > cfg.SaltHint+20000 {
+			return nil, fmt.Errorf("no genesis seed gives the honest committee of %s the required pattern", cfg.Name)
 		}
-		if err := w.build(&yp, byte(try)); err != nil {
-			return nil, err
-		}
-		if !cfg.Natural || w.honestQuorum() {
+		w.setSeeds(salt)
+		if !cfg.Natural || ((!cfg.Tail || w.anyTail()) && w.honestQuorum() && (!cfg.Tail || w.tailVoter() > 0)) {
 			break
 		}
+	}
+	w.salt = salt
+	if err := w.build(&yp); err != nil {
+		return nil, err
 	}
 	w.table()
 	return w, nil
 }
 
-func (w *world) build(yp *params.YouParams, salt byte) error {
-	cfg := w.cfg
+func (w *world) setSeeds(salt int) {
 	w.creds = map[[4]int]cred{}
+	w.seeds[1] = common.Hash{0x5d, byte(salt), byte(salt >> 8)}
+	w.seeds[2] = common.Hash{0x77, byte(salt), byte(salt >> 8)}
+}
+
+// tailVoter returns an honest voter whose precommit credential of index 1 has a VRF output above 0.99 of the range, whose seat
+// count leaves room for inflation and without which the honest committee has no quorum (0: none).
+func (w *world) tailVoter() int {
+	hmax := new(big.Int).Sub(new(big.Int).Lsh(big.NewInt(1), 256), big.NewInt(1))
+	sum := int64(0)
+	for _, v := range w.cfg.Voters {
+		sum += int64(w.seats(v, w.cfg.ProtoV, 1, stepPrecommit, 1))
+	}
+	q := int64(w.cfg.ProtoV) * 685 / 1000
+	for _, v := range w.cfg.Voters {
+		c := w.credential(v, 1, stepPrecommit, 1)
+		h := new(big.Int).SetBytes(c.val[:])
+		j := int64(w.seats(v, w.cfg.ProtoV, 1, stepPrecommit, 1))
+		if new(big.Int).Mul(h, big.NewInt(100)).Cmp(new(big.Int).Mul(hmax, big.NewInt(99))) > 0 && j < w.cfg.Vals[v-1].Stake && sum-j < q {
+			return v
+		}
+	}
+	return 0
+}
+
+// anyTail: some honest voter's VRF output is above 0.99 of the range (cheap pre-test of the seed search).
+func (w *world) anyTail() bool {
+	hmax := new(big.Int).Sub(new(big.Int).Lsh(big.NewInt(1), 256), big.NewInt(1))
+	for _, v := range w.cfg.Voters {
+		c := w.credential(v, 1, stepPrecommit, 1)
+		if new(big.Int).Mul(new(big.Int).SetBytes(c.val[:]), big.NewInt(100)).Cmp(new(big.Int).Mul(hmax, big.NewInt(99))) > 0 {
+			return true
+		}
+	}
+	return false
+}
+
+func (w *world) build(yp *params.YouParams) error {
+	cfg := w.cfg
 	gvals := core.GenesisValidators{}
+	for i := 0; i < cfg.Pad; i++ {
+		k := w.keys[w.nv+2+i]
+		gvals[k.Addr] = core.GenesisValidator{Name: fmt.Sprintf("f%d", i+1), OperatorAddress: k.Addr, Coinbase: k.Addr,
+			MainPubKey: k.PubComp, BlsPubKey: k.BlsPkB, Token: new(big.Int).Mul(big.NewInt(50), params.StakeUint), Role: params.RoleSenator, Status: params.ValidatorOffline}
+	}
 	for i, v := range cfg.Vals {
 		k := w.keys[i+1]
 		role := params.RoleSenator
@@ -196,8 +253,6 @@ func (w *world) build(yp *params.YouParams, salt byte) error {
 			MainPubKey: k.PubComp, BlsPubKey: k.BlsPkB, Token: new(big.Int).Mul(big.NewInt(v.Stake), params.StakeUint),
 			Role: role, Status: status}
 	}
-	w.seeds[1] = common.Hash{0x5d, salt}
-	w.seeds[2] = common.Hash{0x77, salt}
 	gcons := &ucon.BlockConsensusData{Round: big.NewInt(0), RoundIndex: 1, Seed: w.seeds[1], SortitionProof: []byte{1}, Priority: common.Hash{1},
 		SubUsers: 1, Signature: []byte{}, ProposerThreshold: cfg.ProtoP, ValidatorThreshold: cfg.ProtoV, CertValThreshold: cfg.ProtoV}
 	gcb, err := rlp.EncodeToBytes(gcons)
@@ -221,9 +276,8 @@ func (w *world) build(yp *params.YouParams, salt byte) error {
 	if err != nil {
 		return err
 	}
-	w.total = stat.GetStakeByKind(params.KindChamber)
-	if w.total.Int64() != chamberOnline(cfg.Vals) {
-		return fmt.Errorf("fixture: online chamber stake is %v, expected %d", w.total, chamberOnline(cfg.Vals))
+	if t := stat.GetStakeByKind(params.KindChamber); t.Cmp(w.total) != 0 {
+		return fmt.Errorf("fixture: online chamber stake is %v, expected %v", t, w.total)
 	}
 	w.realIdx = make([]uint32, w.nv+2)
 	vs := w.vld.GetValidators()
@@ -231,6 +285,9 @@ func (w *world) build(yp *params.YouParams, salt byte) error {
 		idx, ok := vs.GetIndex(w.keys[i].Addr)
 		if !ok {
 			return fmt.Errorf("fixture: validator %d not in the look-back set", i)
+		}
+		if idx < cfg.Pad {
+			return fmt.Errorf("fixture: modelled validator %d sorts before the fillers (index %d)", i, idx)
 		}
 		w.realIdx[i] = uint32(idx)
 	}
@@ -280,7 +337,8 @@ func (w *world) honestQuorum() bool {
 			min = j
 		}
 	}
-	return sum >= q && sum-min < q && w.seats(w.cfg.Prop, w.cfg.ProtoP, 1, stepProposal, 1) > 0
+	// (tail configuration: the quorum must be lost without the tail voter instead -- tailVoter)
+	return sum >= q && (w.cfg.Tail || sum-min < q) && w.seats(w.cfg.Prop, w.cfg.ProtoP, 1, stepProposal, 1) > 0
 }
 
 func (w *world) table() {
@@ -322,7 +380,8 @@ func (w *world) fixtureJSON() map[string]interface{} {
 		seat = append(seat, tv)
 	}
 	return map[string]interface{}{"name": w.cfg.Name, "vals": w.cfg.Vals, "protoV": w.cfg.ProtoV, "protoP": w.cfg.ProtoP, "ths": w.cfg.Ths,
-		"voters": w.cfg.Voters, "prop": w.cfg.Prop, "total": w.total.Int64(), "seat": seat, "nidx": nIdx}
+		"voters": w.cfg.Voters, "prop": w.cfg.Prop, "total": w.total.Int64(), "seat": seat, "nidx": nIdx,
+		"pad": w.cfg.Pad, "salt": w.salt, "listIndex": w.realIdx[1 : w.nv+1], "tailVoter": w.tailVoter()}
 }
 
 // ---------------------------------------------------------------- header descriptions
